@@ -262,3 +262,14 @@ package middleware
 //@   assert at call (middleware.ResponseWriter).WriteMsg#1: arg1 == lastret("(*github.com/miekg/dns.Msg).SetRcode") || arg1 != nil
 //@   assert at return: ch.count == 0 && calls("(middleware.ResponseWriter).WriteMsg") <= 1
 //@   assert at store middleware.Chain.count#2: value == 0 && calls("(middleware.ResponseWriter).WriteMsg") == 1
+//@
+//@ # ---- C12: a forked sub-query scope (alias chase, DNAME target leg) belongs to the SAME request tree: it shares the
+//@ # parent's ledger host (one budget) and carries the parent's work policy, so work debited through it before the
+//@ # ledger is materialised is charged under the same enforce/shadow mode and limits; with no parent scope nothing is forked
+//@ func WithForkedCut
+//@   abstract
+//@   nosafety all pre
+//@   assert at store middleware.ResponseMeta.workPolicy#1: value == parent.workPolicy && parent == lastret("middleware.ResponseMetaFrom") && parent != nil
+//@   assert at call (*sync/atomic.Pointer[middleware.requestLedgers]).Store#1: arg1 == lastret("(*middleware.ResponseMeta).ensureLedgerHost")
+//@   assert at call (*middleware.ResponseMeta).ensureLedgerHost#1: arg0 == lastret("middleware.ResponseMetaFrom")
+//@   assert at return#1: result1 == nil && result0 == ctx && lastret("middleware.ResponseMetaFrom") == nil
